@@ -916,7 +916,10 @@ class reactive_ops:
             params = self._reactive._params
         else:
             params = resolve_ref(self._reactive)
-        trigger = Trigger(parameters=params)
+        # The trigger relays changes of the references used by the branches;
+        # it is redundant (and hidden from consumers of the expression) only
+        # if all of those are dependencies of the expression anyway
+        trigger = Trigger(parameters=xrefs + yrefs)
         if xrefs:
             def trigger_x(*args):
                 if self.value:
